@@ -175,8 +175,8 @@ func c02ReadOnly(c *eng.Ctx) {
 		for _, f := range eng.WithClosures(fn) {
 			for _, call := range eng.Calls(f) {
 				name := eng.CalleeName(call)
-				if name == "errors.New" || strings.HasPrefix(name, "builtin:") {
-					continue
+				if isDiagnosticCall(name) || strings.HasPrefix(name, "builtin:") {
+					continue // messages and log lines are not operations on the root
 				}
 				if callee := call.Common().StaticCallee(); callee != nil && eng.FuncPkgRel(callee) == localEPPkg && eng.PureHelper(callee) {
 					continue // a verdict-only helper is part of the guard itself
